@@ -438,7 +438,7 @@ func newRepoWorldOnImage(parent *repoWorld, image string) (*repoWorld, error) {
 		rw.chains["cdp-"+n] = pki.Chain(l.Cert, rw.ca)
 	}
 	parent.org.SetBody(pathRepo, []byte("<html>503 service unavailable</html>"))
-	w, err := world.New(world.Cfg{Mode: "crl_only", Storage: "disk", Sig: "verify", Fetch: "fetch_actively", CdpStrict: true, Interval: "1h"})
+	w, err := world.New(world.Cfg{Mode: "crl_only", Storage: "disk", Sig: parent.w.Cfg.Sig, Fetch: "fetch_actively", CdpStrict: true, Interval: "1h"})
 	if err != nil {
 		return nil, err
 	}
